@@ -673,3 +673,8 @@ fire("c11-slice-tensor-branch-drops-step", "C11", TERMS,
      "            data = self.slice.start + self.slice.step * index.data\n            return type(index)(data, index.inputs, self.output.dtype)",
      "            data = self.slice.start + index.data\n            return type(index)(data, index.inputs, self.output.dtype)", "R11.6", "Slice.eager_subs")
 rename("C11", TERMS, "Slice.eager_subs")
+
+
+# the whole package re-emitted by ast.unparse: no rule may depend on layout, comments or line numbers
+for _p in ("C01", "C02", "C03", "C05", "C06", "C07", "C08", "C11", "C15", "C16", "C17", "C18", "C20"):
+    V.append(dict(id=f"{_p.lower()}-s-unparse-package", prop=_p, kind="silent", transform=("unparse_package", "", "")))
